@@ -332,7 +332,8 @@ Definition handle_full_packet (st : sstate) (now : N) (userid : nat) : sstate * 
     match unz raw with
     | None => (st, [])
     | Some ip =>
-        match find_user_by_ip st (le32_at ip 20) now with
+        (* a packet too short to hold the TUN + IP header has no destination user (goes to tun) *)
+        match (if (24 <=? length ip)%nat then find_user_by_ip st (le32_at ip 20) now else None) with
         | None => (st, [OTun ip])
         | Some t =>
             let ut := getu st t in
@@ -655,6 +656,7 @@ Definition tunnel_tun (st : sstate) (now : N) (inpkt : list N) : sstate * list o
   match inpkt with
   | [] => (st, [])
   | _ =>
+    if (length inpkt <? 24)%nat then (st, []) else
     match find_user_by_ip st (le32_at inpkt 20) now with
     | None => (st, [])
     | Some t =>
